@@ -252,11 +252,15 @@ structure InstOps (ι : Type) where
   cls : ι → IKC
   sortKey : ι → List Nat
 
-/-- The order is a total order on values and keys line up (fixed length), as for every `derive(Ord)`
-struct of fixed shape. -/
+/-- The order is a total order on values (`inj`) and keys line up (`sep`): no key is a proper prefix of
+another one, so that the lexicographic order of `exchange :: key ++ [kind]` (`Subscr.sortKey`) is the order
+of the TUPLE (exchange, instrument, kind), as for every `derive(Ord)` struct. Keys of one fixed length line
+up (`InstOps.Lawful.of_len`, Lemmas); so do keys built from `strKey`-encoded names, whose length varies with
+the name. The theorems only use `inj`; `sep` is what makes the key a faithful rendering of the derived order
+(`Props.C13V.sort_key_is_tuple_order`). -/
 structure InstOps.Lawful {ι : Type} (ops : InstOps ι) : Prop where
   inj : Function.Injective ops.sortKey
-  len : ∀ i j, (ops.sortKey i).length = (ops.sortKey j).length
+  sep : ∀ i j, ops.sortKey i <+: ops.sortKey j → ops.sortKey i = ops.sortKey j
 
 /-- `Subscription<ExchangeId, Instrument, SubKind>` (subscription/mod.rs:41-48); field order = derived
 `Ord`. -/
@@ -518,24 +522,69 @@ def Builder.subscribe (b : Builder ι) (c : Exch) (insts : List ι) : Builder ι
 def Builder.ofCalls (kind : SubKind) (calls : List (Exch × List ι)) : Builder ι :=
   calls.foldl (fun b c => b.subscribe c.1 c.2) { kind := kind }
 
-/-- First element of a list of outcomes that is not a connection, provided everything before it is
-never reached: `try_join_all` polls in order and stops at the first error, so the result of `init` is
-decided before the network iff the FIRST future fails. -/
+/-- What a future — or `try_join_all` over futures — has done when its FIRST poll returns: `Ready(Err(e))`
+(`error e`), or `Pending` on the network (`network`: what happens next is outside the model). `Ready(Ok(..))`
+is `none` of `Option (PreNet ε)`. -/
 inductive PreNet (ε : Type) where
   | error (e : ε)
-  /-- the first future would touch the network (or there is none): outside the model -/
+  /-- pending on a connection attempt: outside the model -/
   | network
   deriving DecidableEq, Repr
 
-/-- `StreamBuilder::init` (builder/mod.rs:130-145) up to the network. `none` futures: `Ok` with the
-channel receivers. -/
-def Builder.init [DecidableEq ι] (ops : InstOps ι) (b : Builder ι) : Option (PreNet (SubscribeOutcome ι)) :=
-  match b.futures with
+/-- `join_all::SMALL` (futures-util 0.3.34, future/join_all.rs:35): up to this many futures `try_join_all`
+polls them itself, above it hands them to `FuturesOrdered` (try_join_all.rs:136-143). -/
+def tryJoinSmall : Nat := 30
+
+/-- `try_join_all`, small mode, first poll (try_join_all.rs:158-186): EVERY future is polled once, in order;
+the first `Err` OF THE PASS ends the pass and is returned — although an earlier future may be pending on the
+network; without an `Err` the result is `Pending` if some future is pending, `Ok` if none is. The argument
+is what each future does when first polled. -/
+def joinSmall {ε : Type} : List (Option (PreNet ε)) → Option (PreNet ε)
   | [] => none
-  | (c, insts) :: _ =>
-    match subscribeOutcome ops c insts with
-    | .connect _ => some .network
-    | o => some (.error o)
+  | none :: t => joinSmall t
+  | some (.error e) :: _ => some (.error e)
+  | some .network :: t =>
+    match joinSmall t with
+    | some (.error e) => some (.error e)
+    | _ => some .network
+
+/-- `try_join_all`, big mode, first poll (`FuturesOrdered` + `try_collect`, stream/futures_ordered.rs): all
+futures are polled, but the results are consumed in INDEX order, so the first future that is not `Ok` at
+once decides — its error if it fails when first polled, `Pending` if it waits for the network (a later
+future's error stays queued behind it). -/
+def joinBig {ε : Type} : List (Option (PreNet ε)) → Option (PreNet ε)
+  | [] => none
+  | none :: t => joinBig t
+  | some r :: _ => some r
+
+/-- a future that does not fail when first polled (it is `Ok` at once, or pending on the network) -/
+def NoErr {ε : Type} (x : Option (PreNet ε)) : Prop := ∀ e, x ≠ some (.error e)
+
+/-- `futures::future::try_join_all(futures)` up to the network. -/
+def tryJoinAll {ε : Type} (l : List (Option (PreNet ε))) : Option (PreNet ε) :=
+  if l.length ≤ tryJoinSmall then joinSmall l else joinBig l
+
+/-- What the future pushed by one `subscribe` call does when first polled: it fails before the network (the
+error carries the connector: the error text names it) or is pending on its connection attempt; never `Ok`
+at once. -/
+def callPoll [DecidableEq ι] (ops : InstOps ι) (call : Exch × List ι) :
+    Option (PreNet (Exch × SubscribeOutcome ι)) :=
+  match subscribeOutcome ops call.1 call.2 with
+  | .connect _ => some .network
+  | o => some (.error (call.1, o))
+
+/-- What each pushed future does when first polled, in `subscribe` order. -/
+def Builder.firstPolls [DecidableEq ι] (ops : InstOps ι) (b : Builder ι) :
+    List (Option (PreNet (Exch × SubscribeOutcome ι))) :=
+  b.futures.map (callPoll ops)
+
+/-- `StreamBuilder::init` (builder/mod.rs:130-145) up to the network: `try_join_all(self.futures).await?`.
+`none`: `Ok` with the channel receivers (no future at all). With at most 30 `subscribe` calls the first
+future IN ORDER THAT FAILS WHEN FIRST POLLED decides, even behind calls that went to the network; only if
+none fails is the outcome the network's. -/
+def Builder.init [DecidableEq ι] (ops : InstOps ι) (b : Builder ι) :
+    Option (PreNet (Exch × SubscribeOutcome ι)) :=
+  tryJoinAll (b.firstPolls ops)
 
 /-- `MultiStreamBuilder<Output>` -/
 structure Multi (ι : Type) where
@@ -547,32 +596,36 @@ structure Multi (ι : Type) where
 def Multi.add (m : Multi ι) (b : Builder ι) : Multi ι :=
   { channels := b.channels.foldl insertNew m.channels, futures := m.futures ++ [b] }
 
-/-- `MultiStreamBuilder::init` (builder/multi.rs:104-116) up to the network: the first added builder's
-`init` decides, if it fails before the network. A builder without futures yields `Ok(())` at once and
-the next one is polled. -/
-def Multi.init [DecidableEq ι] (ops : InstOps ι) (m : Multi ι) : Option (PreNet (SubscribeOutcome ι)) :=
-  go m.futures
-where
-  go : List (Builder ι) → Option (PreNet (SubscribeOutcome ι))
-    | [] => none
-    | b :: t =>
-      match b.init ops with
-      | none => go t
-      | some r => some r
+/-- `MultiStreamBuilder::init` (builder/multi.rs:104-116) up to the network: `try_join_all` over one future
+per added builder, each `builder.init().await?` first (multi.rs:74-76) — a builder without futures yields
+`Ok` at once. -/
+def Multi.init [DecidableEq ι] (ops : InstOps ι) (m : Multi ι) :
+    Option (PreNet (Exch × SubscribeOutcome ι)) :=
+  tryJoinAll (m.futures.map fun b => b.init ops)
 
 /-! ## Concrete instrument types -/
 
-/-- `MarketDataInstrument` (market_data/mod.rs:12-19) with the asset names `a000`, `a001`, … (whose `str`
-order is the order of the numbers). -/
+/-- `MarketDataInstrument` (market_data/mod.rs:12-19) with the asset names `a000`, `a001`, …, `a999`,
+`a1000`, … the harness builds (`format!("a{n:03}")`). The derived `Ord` compares the NAMES (`SmolStr`, i.e.
+`str` order = byte-wise lexicographic): for numbers below 1000 that is the order of the numbers
+(`Props.C13V.asset_names_below_1000_order_as_numbers`), from 1000 on it is not (`a1000 < a999`:
+`Props.C13V.asset_name_1000_sorts_before_999`). -/
 structure Inst where
   base : Nat
   quote : Nat
   kind : IK
   deriving DecidableEq, Repr, Inhabited
 
-def Inst.sortKey (i : Inst) : List Nat := [i.base, i.quote] ++ i.kind.sortKey
-
 def assetName (n : Nat) : Str := 'a' :: BarterModel.Names.pad 3 n
+
+/-- The `str` order as a sort key: code point + 1 per character (all names are ASCII, where byte order is
+code-point order), closed by `0` — so that a name that is a prefix of another sorts first and keys of
+consecutive fields line up whatever the lengths of the names. -/
+def strKey (s : Str) : List Nat := s.map (fun c => c.toNat + 1) ++ [0]
+
+/-- `#[derive(Ord)]` of `MarketDataInstrument`: base name, quote name (as strings), kind. -/
+def Inst.sortKey (i : Inst) : List Nat :=
+  strKey (assetName i.base) ++ (strKey (assetName i.quote) ++ i.kind.sortKey)
 
 /-- `Display for MarketDataInstrument` (market_data/mod.rs:22-26). -/
 def Inst.display (i : Inst) : Str :=
@@ -603,9 +656,10 @@ structure MInst where
   kind : IK
   deriving DecidableEq, Repr, Inhabited
 
-def MInst.sortKey (i : MInst) : List Nat := [i.key, i.nameExchange] ++ i.kind.sortKey
-
 def instrumentName (n : Nat) : Str := 'i' :: BarterModel.Names.pad 3 n
+
+/-- `#[derive(Ord)]` of `MarketInstrumentData`: key, exchange name (a string: `i1000 < i999`), kind. -/
+def MInst.sortKey (i : MInst) : List Nat := i.key :: (strKey (instrumentName i.nameExchange) ++ i.kind.sortKey)
 
 /-- `Display for MarketInstrumentData` (instrument.rs:74-88). -/
 def MInst.display (i : MInst) : Str :=
